@@ -4,6 +4,7 @@
 From Coq Require Import List Bool Arith NArith ZArith QArith.
 From DV Require Import Common.Res Common.Str Generated.T_classes Ext.Types.
 Import ListNotations.
+Local Open Scope nat_scope.
 
 Definition s_global : str := [103; 108; 111; 98; 97; 108]%N.
 Definition s_time : str := [116; 105; 109; 101]%N.
